@@ -48,6 +48,8 @@ type c04Expect struct {
 	Prelude string `json:"prelude,omitempty"`
 	// Using: the equi-conjunction is written  USING (c1, c2, ...)  instead of ON (both tables name the columns alike)
 	Using string `json:"using,omitempty"`
+	// Derived: "", "left", "right" or "both" - that side is written as an aliased derived table (SELECT * FROM t) x
+	Derived string `json:"derived,omitempty"`
 }
 
 var c04Preludes = []string{
@@ -339,6 +341,9 @@ func genC04(t *rapid.T) *Bundle {
 	}
 	typ := rapid.SampledFrom([]string{"inner", "left", "right"}).Draw(t, "join_type")
 	exp := c04Expect{Type: typ, On: on, OnSQL: on.sql(), Equi: on.equi(), Using: usingCols}
+	if !big && rapid.IntRange(0, 5).Draw(t, "derived_side") == 0 {
+		exp.Derived = rapid.SampledFrom([]string{"left", "right", "both", "both"}).Draw(t, "derived_which")
+	}
 	exp.Rows = textbookJoin(typ, on, left, right)
 	doc := map[string]any{"t": left, "u": right, "p": []any{
 		map[string]any{"id": float64(1), "o": map[string]any{"q": float64(1)}},
@@ -417,9 +422,16 @@ func evalC04(b *Bundle, r *Runner) []*Violation {
 		for si, sim := range sims {
 			c := b.Case
 			c.Sim = sim
-			q := fmt.Sprintf("SELECT * FROM t x %s u y ON %s", sp, exp.OnSQL)
+			lt, rt := "t", "u"
+			if exp.Derived == "left" || exp.Derived == "both" {
+				lt = "(SELECT * FROM t)"
+			}
+			if exp.Derived == "right" || exp.Derived == "both" {
+				rt = "(SELECT * FROM u)"
+			}
+			q := fmt.Sprintf("SELECT * FROM %s x %s %s y ON %s", lt, sp, rt, exp.OnSQL)
 			if exp.Using != "" {
-				q = fmt.Sprintf("SELECT * FROM t x %s u y USING (%s)", sp, exp.Using)
+				q = fmt.Sprintf("SELECT * FROM %s x %s %s y USING (%s)", lt, sp, rt, exp.Using)
 			}
 			ops := []casefmt.Op{}
 			if exp.Prelude != "" {
